@@ -265,8 +265,15 @@ func (w *Workspace) buildIndexFromResolvedLocked() {
 	w.index.SetFileIndex(w.rootJournalPath, BuildFileIndexFromJournal(w.rootJournalPath, w.resolved.Primary))
 	w.updateIncludeEdgesLocked(w.rootJournalPath, nil, w.index.FileIndex(w.rootJournalPath).Includes)
 
-	for path, journal := range w.resolved.Files {
-		w.index.SetFileIndex(path, BuildFileIndexFromJournal(path, journal))
+	// Index included files in sorted path order: aggregates in which the last
+	// file added wins (payee templates) must not depend on map iteration order.
+	paths := make([]string, 0, len(w.resolved.Files))
+	for path := range w.resolved.Files {
+		paths = append(paths, path)
+	}
+	sort.Strings(paths)
+	for _, path := range paths {
+		w.index.SetFileIndex(path, BuildFileIndexFromJournal(path, w.resolved.Files[path]))
 		w.updateIncludeEdgesLocked(path, nil, w.index.FileIndex(path).Includes)
 	}
 }
@@ -361,7 +368,12 @@ func (w *Workspace) removeUnreachableLocked(reachable map[string]bool) {
 
 func (w *Workspace) addMissingReachableLocked(reachable map[string]bool) bool {
 	added := false
+	paths := make([]string, 0, len(reachable))
 	for path := range reachable {
+		paths = append(paths, path)
+	}
+	sort.Strings(paths)
+	for _, path := range paths {
 		if w.index.FileIndex(path) != nil {
 			continue
 		}
